@@ -151,6 +151,7 @@ pub(crate) const K_LEAF_COW: u8 = 24; // do_write_cow
 pub(crate) const K_CLEARNEW: u8 = 25; // clear_new_cluster(cluster number)
 pub(crate) const K_FLUSH_REFCOUNT: u8 = 26; // flush_refcount()
 pub(crate) const K_FLUSH_MAPPING: u8 = 27; // flush_meta_generic(l1, l2cache, ..) from flush_meta
+pub(crate) const K_TRYFROM: u8 = 28; // try_allocate_from(host, count)
 pub(crate) const K_TRYALLOC: u8 = 14; // try_alloc_from_rb_slice (off,len = granted run; len 0 = None)
 
 const NOREC: Rec = Rec { kind: K_NONE, entry: 0, off: 0, len: 0, buf_start: 0, flags: 0 };
@@ -711,6 +712,27 @@ impl KEnv {
             self.passes_left.set(left - 1);
             Ok(false)
         }
+    }
+    /// try_allocate_from(host, cnt) as seen by allocate_clusters: the refcount block at `host` is
+    /// full `full_blocks` more times, then a run is granted inside the block asked
+    pub fn k_try_allocate_from(&self, host: u64, cnt: usize) -> KResult<Option<(u64, usize)>> {
+        self.rec(Rec { kind: K_TRYFROM, off: host, len: cnt, ..NOREC });
+        let left = self.passes_left.get();
+        if left > 0 {
+            self.passes_left.set(left - 1);
+            return Ok(None);
+        }
+        // contract of try_allocate_from: a run of 1..=cnt clusters at or after `host`, inside the
+        // refcount block that contains `host`
+        let info = &self.info;
+        let cs = 1u64 << info.cluster_bits();
+        let skip: u64 = kani::any();
+        let n: usize = kani::any();
+        kani::assume(n >= 1 && n <= cnt && skip < (1 << 30));
+        let end = HostCluster(host).rb_host_end(info);
+        let start = (host & !(cs - 1)) + skip * cs;
+        kani::assume(start + (n as u64) * cs <= end);
+        Ok(Some((start, n)))
     }
     /// the backend's fallocate: fails or succeeds (environment decides)
     pub fn k_file_fallocate(&self, off: u64, len: usize, flags: u32) -> KResult<()> {
